@@ -154,7 +154,7 @@ class World:
     def edit(self, identity_changes=True):
         """one random edit; returns a label.  With identity_changes every content change gets a new mtime."""
         rng = self.rng
-        files = [f for f in self.all_paths(("file",)) if os.path.basename(f) != "keeper"]      # "keeper" files are never edited away
+        files = [f for f in self.all_paths(("file",)) if not os.path.basename(f).startswith("keeper")]      # "keeper..." files are never edited away
         dirs = [os.path.join(self.src, it) for it in self.items] + self.all_paths(("dir",))
         k = rng.randrange(16)
         if k == 0 and files:
